@@ -478,7 +478,7 @@ func c19Real(c *h.Ctx) {
 			line := fmt.Sprintf("#%d mono=%d status=%s", n, h.Mono(), t.State.Status)
 			if gs != nil {
 				line += fmt.Sprintf(" game=%s updated_at=%d event=%s", gs.GameID[:6], gs.UpdatedAt, gs.Status.CurrentEvent)
-				if gp := t.GamePlayerIndex(me); gp >= 0 && gp < len(gs.Players) {
+				if gp := h.GameIdx(t, me); gp >= 0 && gp < len(gs.Players) {
 					line += fmt.Sprintf(" allowed=%v", gs.Players[gp].AllowedActions)
 				}
 			}
@@ -493,7 +493,7 @@ func c19Real(c *h.Ctx) {
 			return
 		}
 		last[gs.GameID] = gs.UpdatedAt
-		gp := t.GamePlayerIndex(me)
+		gp := h.GameIdx(t, me)
 		if gp < 0 || gp >= len(gs.Players) || len(gs.Players[gp].AllowedActions) == 0 {
 			return
 		}
